@@ -10,6 +10,15 @@ class NumberType(Type):
     dtype = None
     typename: str = 'number'
 
+    @staticmethod
+    def _cast(dtype, value):
+        # an anonymous number compared with an integer: integral -> int, otherwise it stays a float
+        if dtype is int:
+            if isinstance(value, str):
+                value = int(value) if value.strip().lstrip('+-').isdigit() else float(value)
+            return int(value) if float(value).is_integer() else value
+        return dtype(value)
+
     def _prepare(self, other):
         if self.dtype not in [int,float,str,bool]:
             # if self node datatype is unknown
@@ -20,12 +29,12 @@ class NumberType(Type):
             else:
                 if other.dtype in [int,float]:
                     self.convert(other.unit)
-                self.value = other.dtype(self.value)
+                self.value = self._cast(other.dtype, self.value)
         elif other.dtype not in [int,float,str,bool]:
             # if other node datatype is unknown
             if self.dtype in [int,float]:
                 other.convert(self.unit)
-            other.value = self.dtype(other.value)
+            other.value = self._cast(self.dtype, other.value)
         elif type(self)==type(other):
             # if both datatypes are known
             if self.dtype in [int,float]:
